@@ -66,6 +66,13 @@ Holds(e, S, R, status) ==
     [] e.op = "ceil1000" -> LET t == S[e.args[2]] - S[e.args[1]] IN
                               IF t <= 0 THEN v = 0 ELSE v = ((t + 99999) \div 100000) * 100000
     [] e.op = "max0sub" -> Near(v, Max(0, S[e.args[2]] - S[e.args[1]]), e.tol)
+    [] e.op = "zero" -> v = 0            \* a line for an amount the program does not support (the return stops when there is one) or a part not filled in
+    (* "Divide line A by line B; enter the result as a decimal rounded to at least three places; 1.000 if it is 1.000 or more": the stored   *)
+    (* ratio r (in 1/100000) must be the capped quotient: B * r is A up to the rounding of r.  Not judged when B is not positive.            *)
+    [] e.op = "ratio" -> LET a == S[e.args[1]]  b == S[e.args[2]]  r == R[e.line] IN
+                           IF b <= 0 \/ a < 0 THEN TRUE
+                           ELSE IF a >= b THEN r = 100000
+                           ELSE r >= 0 /\ r <= 100000 /\ Abs(MulRatio(b, r) - a) <= (b \div 100000) + 2
     [] e.op = "absent" -> FALSE          \* the instruction sends this line to a worksheet that the solution does not contain
     (* 2021 Recovery Rebate Credit Worksheet line 6: $1,400; $2,800 on a joint return if question 2 or 3 was answered yes; nothing *)
     (* if the only qualifying social security numbers are those of dependents.  args = the worksheet's lines 2, 3, 4, 5         *)
